@@ -192,8 +192,10 @@ fn forbidden(paths: &[String]) -> Option<String> {
 fn step(st: &mut St, f: &[&str]) -> String {
     match f {
         ["glob", g, p] => {
-            let pat = Pattern { glob: unhex(g), original: String::new(), source: Source::Global, effect: PatternEffect::Ignore,
-                                relativity: PatternRelativity::Anywhere, path_kind: PathKind::Any };
+            // built through the public constructor (a global, slash-less line: no directory part, effect Ignore), then the
+            // glob under test is put in: a struct literal would stop compiling whenever `Pattern` gets another field
+            let mut pat = Pattern::new(Source::Global, "x");
+            pat.glob = unhex(g);
             let rules = IgnoreRules::from_patterns(Path::new("/"), None, vec![pat]);
             match rules.check(Path::new(&unhex(p))) { MatchResult::Ignore => "1".into(), MatchResult::NoMatch => "0".into(), MatchResult::Whitelist => "?".into() }
         }
